@@ -329,10 +329,16 @@ def check(ctx):
             if not (feats[0] == "exhaustive-4" and rng.random() < 0.8):
                 reqs.append([Sym("c12_cycles"), [list(e) for e in E]]); meta.append(("cycles", E, feats))
     # type selections
-    for _ in range(60 if ctx.quick() else 1500):
+    for it in range(60 if ctx.quick() else 1500):
         tn, trefs, inst, ids = random_types(rng)
         tids = sorted(set(n[0] for n in tn))
         q = rng.sample(tids, min(len(tids), rng.randint(1, 3)))
+        if it % 10 == 0 and "HasSubtype" in ids:
+            # a reference type that sits in no HasSubtype reference but IS mentioned by a type reference (organised by a folder, say), queried itself
+            lone = 180; tn = tn + [[lone, "UAReferenceType", "Lonely"]]; tids = tids + [lone]
+            trefs = trefs + [[190, lone, ids.get("HasProperty", 100)]]
+            inst = inst + [[1, 2, lone], [2, 1, lone]]
+            q = [lone] + q[:1]
         reqs.append([Sym("c12_subtypes"), q, tn, trefs]); meta.append(("subtypes", (q, tn, trefs), []))
         reqs.append([Sym("c12_supertypes"), q, tn, trefs]); meta.append(("supertypes", (q, tn, trefs), []))
         reqs.append([Sym("c12_constrain"), inst, q, tn, trefs]); meta.append(("constrain", (inst, q, tn, trefs), []))
